@@ -204,6 +204,101 @@ func (r *Run) dispatch(f *ssa.Function, ctx core.Ctx, fieldName string) map[stri
 	return out
 }
 
+// dispatched is a call selected by the value of a type field: a static call under `field == constant`, or a call
+// through a function value that is a bound method chosen under such a condition (Args: receiver first).
+type dispatched struct {
+	Call *ssa.Call
+	Key  string
+	Args []ssa.Value
+}
+
+// operandEdges: the non-phi values v can take, each with the edge on which it enters the phi web.
+func operandEdges(v ssa.Value, depth int) (vals []ssa.Value, from, to []*ssa.BasicBlock) {
+	phi, ok := v.(*ssa.Phi)
+	if ok {
+		if rv := core.ResolvedPhi(phi); rv != nil {
+			return operandEdges(rv, depth)
+		}
+	}
+	if !ok || depth > 6 {
+		return []ssa.Value{v}, []*ssa.BasicBlock{nil}, []*ssa.BasicBlock{nil}
+	}
+	for i, e := range phi.Edges {
+		if ep, isPhi := e.(*ssa.Phi); isPhi && ep != phi {
+			v2, f2, t2 := operandEdges(ep, depth+1)
+			vals, from, to = append(vals, v2...), append(from, f2...), append(to, t2...)
+			continue
+		}
+		vals = append(vals, e)
+		from = append(from, phi.Block().Preds[i])
+		to = append(to, phi.Block())
+	}
+	return
+}
+
+func (r *Run) dispatchSites(f *ssa.Function, ctx core.Ctx, fieldName string) map[string][]dispatched {
+	out := map[string][]dispatched{}
+	ff := r.E.Facts(f, ctx)
+	typeOf := func(facts core.FactSet) []string {
+		var ts []string
+		for _, fct := range facts {
+			if fct.Kind == "cmp" && fct.Op == "==" && fct.B.Op == "const" && fct.A.Op == "field" && fct.A.Name == fieldName {
+				ts = append(ts, strings.Trim(fct.B.Name, `"`))
+			}
+		}
+		return ts
+	}
+	for _, b := range f.Blocks {
+		for _, ins := range b.Instrs {
+			c, ok := ins.(*ssa.Call)
+			if !ok {
+				continue
+			}
+			key, callee, _ := r.P.CalleeKey(c.Common())
+			if callee != nil && r.P.IsSubject(callee) {
+				for _, t := range typeOf(ff.At(c)) {
+					out[t] = append(out[t], dispatched{Call: c, Key: key, Args: c.Common().Args})
+				}
+				continue
+			}
+			if c.Common().IsInvoke() || c.Common().StaticCallee() != nil {
+				continue
+			}
+			vals, from, to := operandEdges(c.Common().Value, 0)
+			for i, lv := range vals {
+				for {
+					ct, isCT := lv.(*ssa.ChangeType)
+					if !isCT {
+						break
+					}
+					lv = ct.X
+				}
+				mc, isMC := lv.(*ssa.MakeClosure)
+				if !isMC || from[i] == nil {
+					continue
+				}
+				fn, _ := mc.Fn.(*ssa.Function)
+				if fn == nil || !strings.HasSuffix(fn.Name(), "$bound") || len(mc.Bindings) != 1 {
+					continue
+				}
+				mo, _ := fn.Object().(*types.Func)
+				if mo == nil {
+					continue
+				}
+				real := r.P.SSA.FuncValue(mo)
+				if real == nil || !r.P.IsSubject(real) {
+					continue
+				}
+				args := append([]ssa.Value{mc.Bindings[0]}, c.Common().Args...)
+				for _, t := range typeOf(ff.EdgeOut(from[i], to[i])) {
+					out[t] = append(out[t], dispatched{Call: c, Key: core.FuncName(real), Args: args})
+				}
+			}
+		}
+	}
+	return out
+}
+
 // short shortens long strings for details.
 func short(s string, n int) string {
 	if len(s) <= n {
@@ -591,7 +686,7 @@ func loopIterationPaths(ff *core.FnFacts, head *ssa.BasicBlock, limit int) []ite
 			return
 		}
 		for _, s := range b.Succs {
-			if !ff.IsLiveEdge(b, s) {
+			if !ff.IsLiveEdge(b, s) || !ff.PathFeasible(blocks, s) {
 				continue
 			}
 			if s == head {
